@@ -317,8 +317,24 @@ func (s *Solver) Check(pc []*Term, extra *Term, wantModel bool) (Result, map[*Te
 		fmt.Fprintf(&s.buf, "(push 1)\n(assert %s)\n", s.ref(extra))
 	}
 	s.buf.WriteString("(check-sat)\n")
-	s.send(s.buf.String())
+	// the write itself can block (a solver that is busy simplifying a huge earlier definition stops reading its input):
+	// it runs under the same hard deadline as the answer
+	sent := make(chan struct{})
+	text := s.buf.String()
 	s.buf.Reset()
+	go func() { s.send(text); close(sent) }()
+	select {
+	case <-sent:
+	case <-time.After(time.Duration(s.timeoutMs)*time.Millisecond + 5*time.Second):
+		s.cmd.Process.Kill() // unblocks the writer
+		<-sent
+		s.Unknown++
+		if s.errSeen == "" {
+			s.errSeen = "timeout (solver stopped reading its input)"
+		}
+		s.restart()
+		return RUnknown, nil
+	}
 	line := s.readLine()
 	res := RUnknown
 	switch line {
